@@ -57,6 +57,7 @@ def run(ctx):
                 s.wait_loop(3)
             elif r[0] == 'int':
                 s.cmd(b, [b'CLIENT', b'KILL', b'ID', str(r[1]).encode()])
+                s.wait_loop(3)
                 s.cmd(a, [b'EXEC'])          # answered by a close
             s.cmd(b, [b'EXISTS', b'queued', b'ql'])
             s.cmd(b, [b'DBSIZE'])
